@@ -112,9 +112,13 @@ def p1text_obligations(eng):
         return [("from_pos stays inside the line, at or after the '(' that ended the address", z3.And(ae >= 0, fp >= ae, fp < z3.Length(line.e)))]
     def dec_inner(st, e): return z3.Length(st.locals["line"].e) - to_int(st.locals["from_pos"])
     def inv_outer(st, e):
-        pos = to_int(st.locals["position"]); return [("position is -1 or inside the line", z3.And(pos >= -1, pos <= z3.Length(st.locals["data_line"].e)))]
+        v = st.locals["position"]
+        if v is None: return []          # a 'no more data sets' marker other than -1
+        pos = to_int(v); return [("position is -1 or inside the line", z3.And(pos >= -1, pos <= z3.Length(st.locals["data_line"].e)))]
     def dec_outer(st, e):
-        pos = to_int(st.locals["position"]); return z3.If(pos >= 0, z3.Length(st.locals["data_line"].e) - pos + 1, 0)
+        v = st.locals["position"]
+        if v is None: return z3.IntVal(0)
+        pos = to_int(v); return z3.If(pos >= 0, z3.Length(st.locals["data_line"].e) - pos + 1, 0)
     def selector(qual, stmt, no):
         if qual != q: return None
         src = ast.unparse(stmt)
@@ -191,11 +195,14 @@ def decode_mapping_obligations(eng):
     eng.setitem_hook = setitem
     addr = z3.String("addr"); unit = z3.String("unit"); unit_none = z3.Bool("unit_none"); val = z3.String("val0")
     def init_dp(e):
+        # two data sets: the first is arbitrary, the contract is about what is stored for the SECOND (every data set is decoded on its own:
+        # nothing may leak from an earlier data set)
         st = State(); u = SOStr(unit_none, unit)
+        first = st.new_obj(D + "DataSet", {"address": SStr(z3.String("addr_prev")), "values": [st.new_obj(D + "DataSetValue", {"value": SStr(z3.String("val_prev")), "unit": SOStr(z3.Bool("unit_prev_none"), z3.String("unit_prev"))})]})
         vals = [st.new_obj(D + "DataSetValue", {"value": SStr(val), "unit": u})]
         item = st.new_obj(D + "DataSet", {"address": SStr(addr), "values": vals})
-        st.pc.append(z3.Length(addr) > 0)
-        yield st, [[item]], "one value"
+        st.pc += [z3.Length(addr) > 0, z3.Length(z3.String("addr_prev")) > 0]
+        yield st, [[first, item]], "second of two data sets"
     P1DT = z3.Function("p1_datetime_of", S_, I)
     def apply_p1dt(e, st, args, ctx, node):
         s_ = to_str(args[0]); ok = st.fork(); bad = st.fork(); t = z3.Function("p1_datetime_ok", S_, B)(s_); ok.pc.append(t); bad.pc.append(z3.Not(t))
@@ -206,9 +213,9 @@ def decode_mapping_obligations(eng):
     in_set = lambda names: z3.And(has_unit, z3.Or(*[lu == z3.StringVal(n) for n in names]))
     def post_dp(st, args, res, old, e):
         stores_ = st.ghost.get("stores", ())
-        yield "exactly one entry is stored for a single-valued data set", z3.BoolVal(len(stores_) == 1)
-        if len(stores_) != 1: return
-        key, v = stores_[0]
+        yield "exactly one entry is stored per single-valued data set", z3.BoolVal(len(stores_) == 2)
+        if len(stores_) != 2: return
+        key, v = stores_[1]
         known = z3.Or(*[cde == z3.StringVal(k) for k in name_map])
         yield "key == common field name of C.D.E, or C.D.E itself when unknown", z3.And(z3.Implies(known, z3.Or(*[z3.And(cde == z3.StringVal(k), to_str(key) == z3.StringVal(nm)) for k, nm in name_map.items()])),
                                                                                       z3.Implies(z3.Not(known), to_str(key) == cde))
